@@ -9,9 +9,22 @@
 (*   "dup"   : a base is listed twice         (TypeError: duplicate base class)               *)
 (*   "order" : the C3 merge finds no candidate (TypeError: Cannot create a consistent MRO)    *)
 (* A failed statement binds no name: later statements cannot use it as a base.                *)
+(*                                                                                            *)
+(* Generic bases.  An entry of a base list is a SPELLING b = Origin(b) + 100 * Sp(b):          *)
+(*   Sp = 0  the bare class `K`          Sp = 1  `K[int]`      Sp = 2  `K[str]`               *)
+(*   Sp = 3  `K[T]` (T a type variable; the new class is generic again)                       *)
+(* and GEN = 99 is `Generic[T]` (typing.Generic, MRO <<GEN, OBJ>>), written last in a list.    *)
+(* A class is generic (subscriptable) iff its statement lists Generic[T] or a K[T] base.       *)
+(* At run time __mro_entries__ erases the subscripts: type.__new__ sees the ORIGINS, so the    *)
+(* linearisation and the duplicate-base test work on origins (`class D(K, K[int])` and         *)
+(* `class D(K[int], P, K[str])` are "duplicate base class K").                                 *)
 EXTENDS Naturals, Sequences, FiniteSets
 
 OBJ == 0
+GEN == 99
+Origin(b) == b % 100
+Sp(b) == b \div 100
+Origins(bs) == [k \in DOMAIN bs |-> Origin(bs[k])]
 ToSet(s) == {s[x] : x \in DOMAIN s}
 MinOf(S) == CHOOSE x \in S : \A y \in S : x <= y
 
@@ -46,8 +59,11 @@ MergeRec(seqs, res) ==
 -----------------------------------------------------------------------------
 (* One class statement, and a whole hierarchy *)
 
-EffBases(bs) == IF bs = <<>> THEN <<OBJ>> ELSE bs
-MroOf(L, b) == IF b = OBJ THEN <<OBJ>> ELSE L[b].mro
+(* the bases type.__new__ sees: origins of the written spellings *)
+EffBases(bs) == IF bs = <<>> THEN <<OBJ>> ELSE Origins(bs)
+MroOf(L, b) == IF b = OBJ THEN <<OBJ>> ELSE IF b = GEN THEN <<GEN, OBJ>> ELSE L[b].mro
+(* statement with written bases bs creates a generic class *)
+GenericStmt(bs) == \E k \in DOMAIN bs : bs[k] = GEN \/ Sp(bs[k]) = 3
 (* the lists handed to the merge for statement c with bases bs: the MRO of every base, then   *)
 (* the list of bases itself                                                                   *)
 MergeInput(L, bs) ==
@@ -66,11 +82,18 @@ RECURSIVE LinRec(_, _)
 LinRec(H, L) == IF Len(L) = Len(H) THEN L ELSE LinRec(H, Append(L, Statement(L, H[Len(L) + 1])))
 Lin(H) == LinRec(H, <<>>)
 
-(* H is well formed w.r.t. its own linearisation: bases are earlier, successfully created     *)
+(* H is well formed w.r.t. its own linearisation: bases are earlier, successfully created;    *)
+(* only generic classes are subscripted; Generic[T] is written last                           *)
 WellFormed(H, L) ==
   /\ Len(L) = Len(H)
   /\ \A c \in DOMAIN H : \A k \in DOMAIN H[c] :
-        H[c][k] = OBJ \/ (H[c][k] \in 1 .. (c - 1) /\ L[H[c][k]].st = "ok")
+        LET b == H[c][k]
+            o == Origin(b) IN
+        \/ b = OBJ
+        \/ b = GEN /\ k = Len(H[c])
+        \/ /\ o \in 1 .. (c - 1) /\ L[o].st = "ok"
+           /\ Sp(b) \in 0 .. 3
+           /\ Sp(b) > 0 => GenericStmt(H[o])
 
 -----------------------------------------------------------------------------
 (* Declarative laws of C3 (what "agrees with the language" means, independent of the merge)   *)
@@ -78,6 +101,7 @@ WellFormed(H, L) ==
 RECURSIVE Ancestors(_, _)
 Ancestors(H, c) ==   \* proper ancestors, OBJ included
   IF c = OBJ THEN {}
+  ELSE IF c = GEN THEN {OBJ}
   ELSE LET eb == EffBases(H[c]) IN
        ToSet(eb) \cup UNION {Ancestors(H, eb[k]) : k \in DOMAIN eb}
 
@@ -115,4 +139,24 @@ Laws(H, L) ==
 FirstDefiner(m, D) ==
   IF \E k \in DOMAIN m : m[k] \in D /\ m[k] # OBJ
     THEN m[MinOf({k \in DOMAIN m : m[k] \in D /\ m[k] # OBJ})] ELSE 0
+
+-----------------------------------------------------------------------------
+(* Attribute histories.  Class dictionaries change after the class statement                  *)
+(* (`K.tag = v`); a read must find the definition that is first in the MRO NOW.               *)
+(* defs[c] = marker of the value `tag` currently has in the dictionary of class c, 0 = the    *)
+(* dictionary of c has no `tag`.  The marker of a definition is the index of the program step *)
+(* (class statement with `tag` in its body, or assignment) that made it.                      *)
+DefinersNow(defs) == {k \in DOMAIN defs : defs[k] # 0}
+ReadBy(m, defs) == FirstDefiner(m, DefinersNow(defs))                \* class that answers, 0: none
+ReadExp(m, defs) == LET by == ReadBy(m, defs) IN IF by = 0 THEN 0 ELSE defs[by]
+
+(* the same from the recorded history alone (independent of the state carried along):        *)
+(* hist = sequence of steps [op, bases, def, c, m, exp, by]                                    *)
+StmtOfStep(hist, u) == Cardinality({v \in 1 .. u : hist[v].op = "class"})
+DefinesOn(hist, u, k) ==   \* step u puts `tag` into the dictionary of class k
+  \/ hist[u].op = "class" /\ hist[u].def /\ StmtOfStep(hist, u) = k
+  \/ hist[u].op = "assign" /\ hist[u].c = k
+MarkerAt(hist, k, s) ==    \* marker of `tag` in the dictionary of class k just before step s
+  LET U == {u \in 1 .. (s - 1) : DefinesOn(hist, u, k)} IN
+  IF U = {} THEN 0 ELSE CHOOSE u \in U : \A v \in U : v <= u
 =============================================================================
